@@ -57,6 +57,9 @@ func (w *walker) visit(m *model, depth int) {
 	classes := []string{fmt.Sprintf("hist_len:%d", depth), "size:" + fmt.Sprint(m.size), "state:" + m.form.String()}
 	if depth > 0 {
 		op := m.hist[len(m.hist)-1]
+		if i := strings.IndexByte(op, '{'); i > 0 {
+			op = op[:i]
+		}
 		if i := strings.IndexByte(op, '('); i > 0 {
 			classes = append(classes, "nbTasks_given")
 			op = op[:i]
@@ -197,7 +200,8 @@ func TestC20_Exhaustive(t *testing.T) {
 					continue
 				}
 				size := 1 << j.lg
-				sh := &shared{c: c, p: randomPoly(c, size, "exh"), size: size, s: altShift(c, j.lg+j.rho, 8*size), tabs: map[int]*tables{}}
+				pal := shiftPalette(c, 8*size)
+				sh := &shared{c: c, p: randomPoly(c, size, "exh"), size: size, s: pal[ji%len(pal)], pal: pal, tabs: map[int]*tables{}}
 				w := &walker{t: t, test: test, maxDepth: j.depth, maxLen: 4, evalsPer: 4, ctr: ji * 1000003}
 				if size > 64 {
 					w.maxLen, w.evalsPer = 2, 2
@@ -213,7 +217,7 @@ func TestC20_Exhaustive(t *testing.T) {
 			}
 			rep.Exhaustive(test)
 			rep.Note(test, "conversions on a LARGER domain are generated for Canonical objects in both layouts (a coefficient vector refers to no domain); for Lagrange/LagrangeCoset objects the domain argument must be the domain the stored values live on (the object does not record it) - passing a domain of another cardinality is treated as a caller error and not generated, although the library does not reject it (it zero-pads the values and returns a different polynomial)")
-			rep.Note(test, fmt.Sprintf("all operation sequences over %v up to length %d (extended initial objects: %d) from each of the 6 forms, sizes 2^0..2^%d; grow operations apply only to Canonical/Regular objects and up to 4x the size; Evaluate in LagrangeCoset basis only once ToLagrangeCoset has stored the coset (DESIGN §11); GetCoeff in Canonical basis only with shift 0",
+			rep.Note(test, fmt.Sprintf("all operation sequences over %v up to length %d (extended initial objects: %d) from each of the 6 forms, sizes 2^0..2^%d; grow operations apply to Canonical objects (both layouts) and up to 4x the size; every conversion of an object that is not in LagrangeCoset basis is handed a domain whose coset shift rotates over {package default, two fft.WithShift constants}, an object in LagrangeCoset basis the domain of its coset; Evaluate in LagrangeCoset basis only once ToLagrangeCoset has stored the coset (DESIGN §11); GetCoeff in Canonical basis only with shift 0",
 				opNames, depth, depth-1, maxLg))
 			t.Logf("%s: %d nodes, %d pruned by precondition, %d nodes without Evaluate (coset not stored)", I.Name(), nodes, pruned, skipped)
 		})
